@@ -56,8 +56,25 @@ Definition joins_parent (j : list (ustr * ustr)) := map snd j.
 Definition find_rule (rules : list rule) (id : ustr) : option rule := find (fun r => ueqb (r_id r) id) rules.
 
 (* materializer._get_references_in_rml_rule (function executions are not part of this model: EUnmodelled upstream) *)
+(* one row of fnml_df per input of an execution (or a single row without parameter for a function of no arguments) *)
+Record fexec := { fe_id : ustr; fe_fun : ustr; fe_param : ustr; fe_kind : mkind; fe_value : ustr }.
+Definition exec_rows_of (ftable : list fexec) (eid : ustr) : list fexec := filter (fun e => ueqb (fe_id e) eid) ftable.
+Definition fnml_fuel (ftable : list fexec) : nat := S (length ftable).
+(* utils.get_references_in_fnml_execution; refs_in_template is defined just above *)
+Section Refs.
+Variable ftable : list fexec.
+Fixpoint exec_refs (fuel : nat) (eid : ustr) : list ustr :=
+  match fuel with
+  | O => []
+  | S f => flat_map (fun e => match fe_kind e with
+                              | KTempl => refs_in_template (fe_value e)
+                              | KRef => [fe_value e]
+                              | KExec => exec_refs f (fe_value e)
+                              | _ => []
+                              end) (exec_rows_of ftable eid)
+  end.
 Definition pos_refs (k : mkind) (v : ustr) : list ustr :=
-  match k with KTempl => refs_in_template v | KRef => [v] | _ => [] end.
+  match k with KTempl => refs_in_template v | KRef => [v] | KExec => exec_refs (fnml_fuel ftable) v | _ => [] end.
 Fixpoint rule_refs (fuel : nat) (rules : list rule) (only_subject : bool) (r : rule) : list ustr :=
   match fuel with
   | O => []
@@ -72,6 +89,8 @@ Fixpoint rule_refs (fuel : nat) (rules : list rule) (only_subject : bool) (r : r
       base ++ quoted (r_sk r) (r_sv r) (r_sjoin r) ++ joins_child (r_sjoin r)
            ++ (if only_subject then [] else quoted (r_ok r) (r_ov r) (r_ojoin r) ++ joins_child (r_ojoin r))
   end.
+
+End Refs.
 
 (* ---------------------------------------------------------------- materializer._materialize_template *)
 Definition col_subject := u "subject". Definition col_predicate := u "predicate". Definition col_object := u "object".
@@ -128,30 +147,149 @@ Definition mat_template (cfg : ecfg) (value : ustr) (k : mkind) (pos alias : ust
   let cur := match rget pos r1 with Some x => x | None => [] end in
   Ok (rset pos (delimit tt (cur ++ rest)) r1).
 
-(* ---------------------------------------------------------------- _materialize_rml_rule_terms *)
-Definition is_plain (k : mkind) : bool := match k with KTempl | KConst | KRef => true | _ => false end.
-Definition mat_terms (cfg : ecfg) (rl : rule) (alias : ustr) (r : row) : result row :=
-  rdo r1 <- (if is_plain (r_sk rl) then mat_template cfg (r_sv rl) (r_sk rl) col_subject [] (r_stt rl) [] r
-             else match r_sk rl with KExec => Err EUnmodelled | _ => Ok r end);
-  rdo r2 <- (if is_plain (r_pk rl) then mat_template cfg (r_pv rl) (r_pk rl) col_predicate [] TIri [] r1
-             else match r_pk rl with KExec => Err EUnmodelled | _ => Ok r1 end);
-  rdo r3 <- (if is_plain (r_ok rl) then mat_template cfg (r_ov rl) (r_ok rl) col_object alias (r_ott rl) (r_ldv rl) r2
-             else match r_ok rl with KExec => Err EUnmodelled | _ => Ok r2 end);
-  match r_ld rl with
-  | LDNone => Ok r3
-  | LDLang =>
-      rdo r4 <- (if is_plain (r_ldk rl) then mat_template cfg (r_ldv rl) (r_ldk rl) col_ld [] TNone [] r3 else Err EUnmodelled);
-      match rget col_object r4, rget col_ld r4 with
-      | Some o, Some l => Ok (rset col_object (o ++ [64] ++ l) r4)
-      | _, _ => Err EKey
-      end
-  | LDDt =>
-      rdo r4 <- (if is_plain (r_ldk rl) then mat_template cfg (r_ldv rl) (r_ldk rl) col_ld [] TIri [] r3 else Err EUnmodelled);
-      match rget col_object r4, rget col_ld r4 with
-      | Some o, Some l => Ok (rset col_object (o ++ [94; 94] ++ l) r4)
-      | _, _ => Err EKey
+
+(* ---------------------------------------------------------------- FNML: fnml_executer.py L44-122 *)
+Inductive fres := FNull | FStr (s : ustr) | FList (l : list ustr) | FRaise | FUnmod.
+(* _materialize_fnml_template: the template loop without any value transformation, on the auxiliary column *)
+Definition col_aux_fnml := u "aux_fnml_template_data".
+Fixpoint fnml_template_loop (refs : list ustr) (template : ustr) (r : row) : result (ustr * row) :=
+  match refs with
+  | [] => Ok (template, r)
+  | ref :: rest =>
+      match rget ref r with
+      | None => Err EKey
+      | Some v =>
+          let r1 := rset col_refres v r in
+          let pat := 123 :: ref ++ [125] in
+          let parts := split_on pat template in
+          let cur := match rget col_aux_fnml r1 with Some x => x | None => [] end in
+          fnml_template_loop rest (join pat (tl parts)) (rset col_aux_fnml (cur ++ hd [] parts ++ v) r1)
       end
   end.
+Definition fnml_template (t : ustr) (r : row) : result (ustr * row) :=
+  let r0 := rset col_aux_fnml [] r in
+  rdo tr <- fnml_template_loop (refs_in_template t) (unescape_braces t) r0;
+  let '(rest, r1) := tr in
+  let v := (match rget col_aux_fnml r1 with Some x => x | None => [] end) ++ rest in
+  Ok (v, rset col_aux_fnml v r1).
+
+Section Fnml.
+  Variable na : list ustr.
+  (* the function registry: decorator parameters (python name, parameter IRI) in declaration order, and the function *)
+  Variable fparams : ustr -> option (list (ustr * ustr)).
+  Variable fapply : ustr -> list (ustr * ustr) -> fres.
+  Variable ftable : list fexec.
+
+  Definition exec_rows (eid : ustr) : list fexec := exec_rows_of ftable eid.
+  (* dict(zip(parameter_map_value, ...)): the last row of a parameter wins *)
+  Definition param_binding (rows : list fexec) (piri : ustr) : option (mkind * ustr) :=
+    match filter (fun e => ueqb (fe_param e) piri) rows with
+    | [] => None
+    | l => let e := last l (hd {| fe_id := []; fe_fun := []; fe_param := []; fe_kind := KNone; fe_value := [] |} l) in Some (fe_kind e, fe_value e)
+    end.
+  Fixpoint bind_args (rows : list fexec) (ps : list (ustr * ustr)) (r : row) : result (list (ustr * ustr) * row) :=
+    match ps with
+    | [] => Ok ([], r)
+    | (name, piri) :: rest =>
+        match param_binding rows piri with
+        | None => bind_args rows rest r                   (* optional parameter not given *)
+        | Some (k, v) =>
+            rdo vr <- (match k with
+                       | KConst => Ok (v, r)
+                       | KTempl => fnml_template v r
+                       | _ => match rget v r with Some x => Ok (x, r) | None => Err EKey end
+                       end);
+            rdo br <- bind_args rows rest (snd vr);
+            Ok ((name, fst vr) :: fst br, snd br)
+        end
+    end.
+  (* execute_fnml on one row: inner executions first (each may multiply or drop the row), then the call, null removal, explode *)
+  Fixpoint exec_fnml (fuel : nat) (eid : ustr) (r : row) : result (list row) :=
+    match fuel with
+    | O => Err EFuel
+    | S f =>
+        let rows := exec_rows eid in
+        match rows with
+        | [] => Err EOther
+        | e0 :: _ =>
+            rdo inner <- fold_left (fun acc e =>
+                            match fe_kind e with
+                            | KExec => rdo rs <- acc; rdo nested <- rmap_all (exec_fnml f (fe_value e)) rs; Ok (concat nested)
+                            | _ => acc
+                            end) rows (Ok [r]);
+            match fparams (fe_fun e0) with
+            | None => Err EKey
+            | Some ps =>
+                rdo outs <- rmap_all (fun r1 =>
+                  rdo ar <- bind_args rows ps r1;
+                  match fapply (fe_fun e0) (fst ar) with
+                  | FRaise => Err EOther
+                  | FUnmod => Err EUnmodelled
+                  | FNull => Ok []
+                  | FStr s => if mem s na then Ok [] else Ok [rset eid s (snd ar)]
+                  | FList l => Ok (map (fun x => rset eid x (snd ar)) l)
+                  end) inner;
+                Ok (concat outs)
+            end
+        end
+    end.
+End Fnml.
+
+(* _materialize_fnml_execution *)
+Record fenv := { fn_params : ustr -> option (list (ustr * ustr)); fn_apply : ustr -> list (ustr * ustr) -> fres; fn_table : list fexec }.
+Definition mat_exec (cfg : ecfg) (fe : fenv) (eid pos : ustr) (tt : ttype) (datatype : ustr) (r : row) : result (list row) :=
+  rdo rs <- exec_fnml (c_na cfg) (fn_params fe) (fn_apply fe) (fn_table fe) (fnml_fuel (fn_table fe)) eid r;
+  rmap_all (fun r1 =>
+    match rget eid r1 with
+    | None => Err EKey
+    | Some v0 =>
+        let v1 := if c_printable cfg then remove_non_printable v0 else v0 in
+        match tt with
+        | TLit => match canon datatype v1 with
+                  | COk s => let e := escape_lit s in Ok (rset pos (34 :: e ++ [34]) (rset eid e r1))
+                  | CErr => Err EValue
+                  | CUnmodelled => Err EUnmodelled
+                  end
+        | TIri => let s := strip v1 in Ok (rset pos (60 :: s ++ [62]) (rset eid s r1))
+        | TBnode => Ok (rset pos (95 :: 58 :: v1) (rset eid v1 r1))
+        | _ => Ok (rset eid v1 r1)
+        end
+    end) rs.
+
+(* ---------------------------------------------------------------- _materialize_rml_rule_terms *)
+Definition is_plain (k : mkind) : bool := match k with KTempl | KConst | KRef => true | _ => false end.
+Definition lift1 (f : row -> result row) (rs : list row) : result (list row) := rmap_all f rs.
+Definition bindl (x : result (list row)) (f : row -> result (list row)) : result (list row) :=
+  rdo rs <- x; rdo ls <- rmap_all f rs; Ok (concat ls).
+Definition mat_pos (cfg : ecfg) (fe : fenv) (k : mkind) (v : ustr) (pos alias : ustr) (tt : ttype) (dt : ustr) (r : row) : result (list row) :=
+  if is_plain k then rdo r' <- mat_template cfg v k pos alias tt dt r; Ok [r']
+  else match k with KExec => mat_exec cfg fe v pos tt dt r | _ => Ok [r] end.
+Definition mat_terms (cfg : ecfg) (fe : fenv) (rl : rule) (alias : ustr) (r : row) : result (list row) :=
+  bindl (bindl (bindl (mat_pos cfg fe (r_sk rl) (r_sv rl) col_subject [] (r_stt rl) [] r)
+                      (mat_pos cfg fe (r_pk rl) (r_pv rl) col_predicate [] TIri []))
+               (mat_pos cfg fe (r_ok rl) (r_ov rl) col_object alias (r_ott rl) (r_ldv rl)))
+        (fun r3 =>
+           match r_ld rl with
+           | LDNone => Ok [r3]
+           | LDLang =>
+               bindl (match r_ldk rl with
+                      | KExec => mat_exec cfg fe (r_ldv rl) col_ld TLit [] r3
+                      | k => if is_plain k then (rdo r' <- mat_template cfg (r_ldv rl) k col_ld [] TNone [] r3; Ok [r']) else Err EUnmodelled
+                      end)
+                     (fun r4 => match rget col_object r4, rget col_ld r4 with
+                                | Some o, Some l => Ok [rset col_object (o ++ [64] ++ l) r4]
+                                | _, _ => Err EKey
+                                end)
+           | LDDt =>
+               bindl (match r_ldk rl with
+                      | KExec => mat_exec cfg fe (r_ldv rl) col_ld TIri [] r3
+                      | k => if is_plain k then (rdo r' <- mat_template cfg (r_ldv rl) k col_ld [] TIri [] r3; Ok [r']) else Err EUnmodelled
+                      end)
+                     (fun r4 => match rget col_object r4, rget col_ld r4 with
+                                | Some o, Some l => Ok [rset col_object (o ++ [94; 94] ++ l) r4]
+                                | _, _ => Err EKey
+                                end)
+           end).
 
 (* ---------------------------------------------------------------- _merge_data *)
 Definition add_prefix (p : ustr) (r : row) : row := map (fun kv => (p ++ fst kv, snd kv)) r.
@@ -184,9 +322,11 @@ Definition all_constant (rl : rule) : bool :=
 Definition keep_subject_col (nest : nat) : ustr := u "keep_subject" ++ dec_of_nat nest.
 Definition quote_triple (t : ustr) : ustr := u "<< " ++ t ++ u " >>".
 Definition rmap_rows (f : row -> result row) (d : frame) : result frame := rmap_all f d.
+Definition rflat_rows (f : row -> result (list row)) (d : frame) : result frame := rdo ls <- rmap_all f d; Ok (concat ls).
 
 Section Mat.
   Variable cfg : ecfg.
+  Variable fe : fenv.
   Variable rules : list rule.
   (* _get_data: source key, reference set -> preprocessed frame *)
   Variable get_data : ustr -> list ustr -> result frame.
@@ -200,10 +340,10 @@ Section Mat.
     match fuel with
     | O => Err EFuel
     | S f =>
-        let refs := rule_refs refs_fuel rules false rl ++ pjrefs in
+        let refs := rule_refs (fn_table fe) refs_fuel rules false rl ++ pjrefs in
         let obtain (extra : list ustr) := match data with Some d => Ok d | None => get_data (r_src rl) (dedup (refs ++ extra)) end in
         rdo terms <-
-          (if all_constant rl then rmap_rows (mat_terms cfg rl []) [[(u "placeholder", u "placeholder")]]
+          (if all_constant rl then rflat_rows (mat_terms cfg fe rl []) [[(u "placeholder", u "placeholder")]]
            else if mkind_eqb (r_sk rl) KQuoted || mkind_eqb (r_ok rl) KQuoted then
              rdo d0 <- obtain [];
              rdo d1 <-
@@ -245,12 +385,12 @@ Section Mat.
                       else Ok d
                   end
                 else Ok d1);
-             rmap_rows (mat_terms cfg rl []) d2
+             rflat_rows (mat_terms cfg fe rl []) d2
            else if mkind_eqb (r_ok rl) KParent then
              match find_rule rules (r_ov rl) with
              | None => Err EOther
              | Some prule =>
-                 let prefs := dedup (rule_refs refs_fuel rules true prule ++ joins_parent (r_ojoin rl)) in
+                 let prefs := dedup (rule_refs (fn_table fe) refs_fuel rules true prule ++ joins_parent (r_ojoin rl)) in
                  rdo d <- obtain (joins_child (r_ojoin rl));
                  rdo pd <- get_data (r_src prule) prefs;
                  rdo m <- merge_data d pd (r_ojoin rl);
@@ -259,11 +399,11 @@ Section Mat.
                                r_ok := r_sk prule; r_ov := r_sv prule; r_ott := r_ott rl;
                                r_ld := r_ld rl; r_ldk := r_ldk rl; r_ldv := r_ldv rl; r_gk := r_gk rl; r_gv := r_gv rl;
                                r_sjoin := r_sjoin rl; r_ojoin := r_ojoin rl |} in
-                 rmap_rows (mat_terms cfg rl' parent_prefix) m
+                 rflat_rows (mat_terms cfg fe rl' parent_prefix) m
              end
            else
              rdo d <- obtain [];
-             rmap_rows (mat_terms cfg rl []) d);
+             rflat_rows (mat_terms cfg fe rl []) d);
         (* data['triple'] = subject + ' ' + predicate + ' ' + object *)
         rdo t1 <- rmap_rows (fun r => match rget col_subject r, rget col_predicate r, rget col_object r with
                                       | Some s, Some p, Some o => Ok (rset col_triple (s ++ [32] ++ p ++ [32] ++ o) r)
@@ -274,7 +414,7 @@ Section Mat.
              rdo g <- (if is_plain (r_gk rl) && negb (ueqb (r_gv rl) Tables.c_rml_default_graph)
                        then rmap_rows (mat_template cfg (r_gv rl) (r_gk rl) col_graph [] TIri []) t1
                        else match r_gk rl with
-                            | KExec => Err EUnmodelled
+                            | KExec => rflat_rows (mat_exec cfg fe (r_gv rl) col_graph TIri []) t1
                             | _ => Ok (map (rset col_graph []) t1)
                             end);
              rmap_rows (fun r => match rget col_triple r, rget col_graph r with
